@@ -52,6 +52,8 @@ def run(ctx):
     ctx.rule("R18.3", "wrappers: KillOnDrop always; session => ProcessSession, else grouped => ProcessGroup::leader(); reset_sigmask => ResetSigmask")
     ctx.rule("R18.4", "the builder returned by to_spawnable is the object handed to the spawn hook (&mut) and then spawned (R09.2), and "
                       "CommandState::spawn spawns its `spawnable` parameter")
+    ctx.rule("R18.6", "argument files stop at `--`: after it every word reaches the command byte for byte - plain words unchanged, `@word` with its `@` "
+                      "put back (it is not expanded as an argument file); Shell::new(name) is {prog: name, no options, -c}")
     ctx.rule("R18.5", "CLI: without a shell prog = first word and args = the remaining words, unmodified; with a shell the words are joined with one "
                       "space into the command string and the program option is -c")
     try:
@@ -107,8 +109,41 @@ def run(ctx):
         sp = ctx.anchor_fn("R18.4", SUP + "::job::state::CommandState::spawn")
         calls = [(strip_generics(c), n) for c, n in thir.calls_in(thir.root(sp)) if strip_generics(c).endswith("TokioCommandWrap::spawn")]
         ok = len(calls) == 1 and pathx.desc(calls[0][1]["a"][0]) == "spawnable"
+        # ... the very one: the parameter is never rebound, and no second builder is made inside spawn()
+        rebound = [pathx.desc(a["b"])[:60] for a in thir.find(thir.root(sp), "assign") if pathx.desc(a["a"]) == "spawnable"]
+        rebuilt = [strip_generics(c) for c, n in thir.calls_in(thir.root(sp)) if strip_generics(c).endswith("to_spawnable")]
+        ok = ok and not rebound and not rebuilt
         ctx.require(ok, "R18.4", "spawns-its-parameter", "CommandState::spawn spawns the builder it was given", sp.loc(sp.line),
                     fail="CommandState::spawn does not spawn the builder that went through the spawn hook")
+    except Skip:
+        pass
+
+    # ---- R18.6 argument-file expansion and Shell::new
+    try:
+        ea = ctx.anchor_fn("R18.6", "watchexec_cli::args::expand_args_up_to_doubledash")
+        en6 = pathx.Enum(interesting=lambda d_: strip_generics(d_).endswith(("Vec::push", "OsString::push", "VecDeque::pop_front", "Extend::extend", "Vec::extend")))
+        rows6 = set()
+        stray6 = []
+        for q in en6.paths(thir.root(ea)):
+            loops6 = [e for e in q.ev if e[0] == "loop"]
+            top6 = [strip_generics(e[1]).split("::")[-1] for e in q.ev if e[0] == "call" and strip_generics(e[1]).endswith(("Extend::extend", "Vec::extend"))]
+            if top6:
+                stray6.append("words are added outside the two pop_front loops: %s" % top6)
+            for e in loops6[1:2]:       # the second loop: what follows `--`
+                for it in e[1]:
+                    arm = [x[2][0].split("(")[0] for x in it if x[0] == "arm" and x[1] == "next"]
+                    pushes = [(strip_generics(x[1]).split("::")[-2] + "::push", [pathx.desc(a) for a in x[2]["a"]]) for x in it if x[0] == "call" and strip_generics(x[1]).endswith("::push")]
+                    rows6.add((arm[0] if arm else None, tuple((n, tuple(a)) for n, a in pushes)))
+        want6 = {("PassThrough", (("Vec::push", ("expanded_args", "match")),)),
+                 ("Path", (("OsString::push", ("restored", "OsStr::new('@')")), ("OsString::push", ("restored", "path")), ("Vec::push", ("expanded_args", "match"))))}
+        ctx.require(rows6 == want6 and not stray6, "R18.6", "after-doubledash-verbatim", "after `--`: a plain word is pushed as is, an `@word` is pushed as '@' + word", ea.loc(ea.line),
+                    detail=(str(sorted(rows6, key=str)) + " " + str(stray6))[:500],
+                    fail="a command word that follows `--` does not reach the command unchanged (%s): `@scope/pkg`-style arguments lose their first character or are expanded" % str(sorted(rows6 - want6, key=str))[:200])
+        shn = ctx.anchor_fn("R18.6", SUP + "::command::shell::Shell::new")
+        dsh = pathx.desc(thir.peel(thir.root(shn)))
+        ctx.require(dsh == "Shell{prog: Into::into(name), options: Vec::new(), program_option: Some{0: Borrowed{0: OsStr::new('-c')}}}", "R18.6", "shell-new",
+                    "Shell::new(name) = {prog: name, options: [], program_option: -c}", shn.loc(shn.line), detail=dsh[:200],
+                    fail="Shell::new interprets the shell path instead of taking it as given (%s): a path with spaces is split into a different program plus options" % dsh[:160])
     except Skip:
         pass
 
